@@ -98,7 +98,8 @@ def analyse_one(prog, module, clsname, rep):
         # pool created per call
         pool = ev["recv"]
         fresh_pool = all(a.op == "call" for a in tm.alts(pool)) and not tm.contains(pool, lambda x: x.op == "attr" and x.args[0] == tm.param("self") and x.args[1] in ("pool", "_pool"))
-        created_here = any(e2.kind == "call" and e2.seq < ev.seq and not e2.stack and e2["result"] == pool for e2 in I.events)
+        top_ids = {id(e3) for e3 in info.top}
+        created_here = any(e2.kind == "call" and e2.seq < ev.seq and id(e2) in top_ids and e2["result"] == pool for e2 in I.events)
         rep.check(fresh_pool and created_here, "R-C16-c", w, "pool object is created inside this calculate call",
                   "constructed at the dispatch site", "the pool is cached outside the call (shared between calls/threads): %s" % tm.show(pool)[:80])
     # ---------------- serial twin (R-C16-d)
